@@ -944,6 +944,8 @@ def run_contract(contract, gridpoint, timeout_ms=10000, max_paths=4000, unwind=6
             for (name, pc, goal, info) in c.obligations:
                 if _TRACE_OBL:
                     sys.stderr.write("OBLIGATION %s\n" % name)
+                    if _os.environ.get("PYVC_TRACE_OBL") == "2":
+                        sys.stderr.write("  PC %s\n  GOAL %s\n" % ([str(e)[:300] for e in pc], str(goal)[:300000]))
                     sys.stderr.flush()
                 st, model, dt, backend = discharge(pc, goal, timeout_ms, c.axioms)
                 res["solver_time"] += dt
